@@ -1,5 +1,6 @@
 SPECIFICATION Spec
 CONSTANTS
+  Memo = "none"
   Tier = "quick"
 CONSTRAINT Export
 INVARIANT GeneratedAreValid
@@ -13,6 +14,9 @@ INVARIANT LawBoundsFromTokens
 INVARIANT LawFeat
 INVARIANT LawAnchorsOnBounds
 INVARIANT LawAnchorsConsistent
+INVARIANT LawHistoryIsRegrouping
+INVARIANT LawRegroupingsDistinguished
+INVARIANT NoMemo
 INVARIANT NeverStuck
 PROPERTY RankDecreases
 CHECK_DEADLOCK FALSE
